@@ -1063,7 +1063,7 @@ def _divide(n, d, known_nonzero=False):
     return _mk(num, den)
 
 
-def sym_pow(x, e):
+def sym_pow(x, e, known_nonneg=False):
     """x ** e for SR x and concrete e."""
     if isinstance(e, (float, np.floating)):
         fe = Fraction(float(e)).limit_denominator(1000)
@@ -1094,9 +1094,10 @@ def sym_pow(x, e):
     if x.is_const():
         return float(x.const_value()) ** float(e)
     # algebraic root: y >= 0, y**den == x**num   (x >= 0 required; x == 0 with num<0 -> inf)
-    neg = (x < 0)
-    if bool(neg):
-        raise NonFinite('fractional power of a negative value')
+    if not known_nonneg:
+        neg = (x < 0)
+        if bool(neg):
+            raise NonFinite('fractional power of a negative value')
     num, den = e.numerator, e.denominator
     if num < 0:
         return _divide(SR.const(1), lift(sym_pow(x, -e)))
@@ -1120,7 +1121,7 @@ def sym_pow(x, e):
         if f != 1:
             inner = f ** den                 # part of the content that leaves the radicand
             X = _mk(_pscale(x.p, 1 / inner), x.q)
-            r = sym_pow(X, e) if isinstance(X, SR) else float(X) ** float(e)
+            r = sym_pow(X, e, known_nonneg) if isinstance(X, SR) else float(X) ** float(e)
             return r * f
     # perfect power of a single monomial over non-negative atoms
     if x.q is None and len(x.p) == 1:
@@ -1186,9 +1187,9 @@ def _square_of_nonneg_atom(a):
     return None
 
 
-def sym_sqrt(x):
+def sym_sqrt(x, known_nonneg=False):
     if isinstance(x, SR):
-        return sym_pow(x, Fraction(1, 2))
+        return sym_pow(x, Fraction(1, 2), known_nonneg)
     return float(np.sqrt(x))
 
 
@@ -1359,7 +1360,7 @@ class SC(object):
             return sym_abs(self.re)
         if _is0(self.re):
             return sym_abs(self.im)
-        return sym_sqrt(self.abs2())
+        return sym_sqrt(self.abs2(), known_nonneg=True)     # re^2 + im^2 >= 0 by construction
 
     def __eq__(self, o):
         o = self._co(o)
